@@ -1,8 +1,10 @@
 """C07 - preprocessing validates binding and renames variables without changing meaning.
 
-Decided here (alpha-equivalence and idempotence over all trees are value-level and not decided).  The validator
-validate_and_rename_recursive(tree, scope, last_name, ctx) is *partially evaluated* for every node shape (online partial
-evaluation of the resolved HIR, idiom normal forms) and the value it returns is compared with the specification:
+Decided here (alpha-equivalence and idempotence over all trees are value-level and not decided).  The validator - the recursive
+function behind validate_props_and_rename_vars, found by call structure; a function of the tree, the symbolic context and its state:
+one scope map String -> String and one last-used name, as parameters or as fields of a private struct, found by type - is
+*partially evaluated* for every node shape (online partial evaluation of the resolved HIR, idiom normal forms) and the value it
+returns is compared with the specification:
   C07-R1  shapes and classification: for every atom kind, unary and binary nodes and each of the four hybrid operators the
           returned value is (scope = the by-value map old-name -> new-name, `name'` = last_name extended by exactly one `x`)
             Var(v)                 Ok(mk_variable(scope[v]))                       if scope has v, Err otherwise
@@ -15,7 +17,10 @@ evaluation of the resolved HIR, idiom normal forms) and the value it returns is 
           - this contains the quantifier / jump classification, check-before-use, depth naming, sibling isolation and the
           reconstruction through the public constructors;
   C07-R2  error propagation: errors of recursive calls are propagated (`?`), never swallowed;
-  C07-R3  no hidden state: the validator has exactly the four parameters above and its value depends on nothing else;
+  C07-R3  no hidden state: the validator's state is exactly the scope map and the name, passed by value - or shared by `&mut`, in
+          which case every node shape must leave both as it found them on every successful exit (induction over the tree: recursive
+          calls restore the state by hypothesis, errors are propagated at once by R2, the node undoes its own `insert`/`push` by
+          `remove` of a key that was absent / `pop`); anything else lets a sibling see what was processed before;
   C07-R4  must-pass-through: every string-based entry point and the command-line analysis evaluate only trees that are
           results of validate_props_and_rename_vars, after check_hctl_var_support, which compares the number of quantifier
           variables collected from that tree (bind / exists / forall, all children visited) with the graph's spare sets."""
